@@ -82,6 +82,12 @@ def sym_close():
     return Sym('C?', raw, {5: ('ck', None), 6: ('cn0', ascii_or_nul), 7: ('cn1', ascii_or_nul)})
 
 
+def sym_digits(prefix, n, suffix="'"):
+    raw = Q(prefix + '0' * n + suffix)
+    off = 5 + len(prefix)
+    return Sym(prefix + '#' * n, raw, {off + i: ('dg%d' % i, lambda v: z3.And(z3.UGE(v, 48), z3.ULE(v, 57))) for i in range(n)})
+
+
 def sym_code(body=b''):
     raw = msg('?', body)
     return Sym('??', raw, {0: ('code', 'QPBDECHSXdcf')})
@@ -99,6 +105,15 @@ def tmpl(name):
         return conc_msg(name, SIMPLE[name])
     if name in EXT:
         return EXT[name]()
+    if name.startswith('q:'):
+        return conc_msg(name, Q(name[2:]))
+    if name.startswith('qd:'):
+        # qd:<n>:<prefix>  -- a query with n symbolic decimal digits and a closing quote
+        _, n, prefix = name.split(':', 2)
+        return sym_digits(prefix, int(n))
+    if name.startswith('dbig:'):
+        n = int(name[5:])
+        return conc_msg(name, msg('d', bytes((i * 7 + n) % 251 for i in range(n))))
     if name.startswith('raw:'):
         return conc_msg(name, bytes.fromhex(name[4:]))
     if name.startswith('code:'):
@@ -108,7 +123,7 @@ def tmpl(name):
 
 # ----------------------------------------------------------------------------------------------- one case
 class Case:
-    def __init__(self, names, stop='eof', cut=None, mode='transaction', cache=0, roles=(0,), paused=None, sym_status=False, plugins=False):
+    def __init__(self, names, stop='eof', cut=None, mode='transaction', cache=0, roles=(0,), paused=None, sym_status=False, plugins=False, shards=None, custom=False):
         self.names = list(names)
         self.stop = stop              # 'eof' | 'X'
         self.cut = cut                # None or number of bytes of the LAST message delivered before EOF
@@ -117,6 +132,8 @@ class Case:
         self.roles = tuple(roles)     # Role discriminants of the backends
         self.paused = paused          # None | 'start' | ('after', k): PAUSE arrives while the client is idle before message k
         self.sym_status = sym_status
+        self.shards = shards          # None or list of role tuples, one per shard (overrides `roles`)
+        self.custom = custom          # the script contains pooler commands (SET SHARD ...): routing reference is evaluated
         self.plugins = plugins        # query parser on; the plugin verdict for every parsed statement is symbolic (allow / deny / intercept)
 
     def label(self):
@@ -126,6 +143,7 @@ class Case:
         s += '' if len(self.roles) == 1 else '/%dbackends' % len(self.roles)
         s += '/symstatus' if self.sym_status else ''
         s += '' if self.paused is None else '/paused:%s' % (self.paused,)
+        s += '' if not self.shards else '/shards:%s' % (self.shards,)
         s += ('/plugins' if self.plugins is True else '/plugins:%s' % self.plugins) if self.plugins else ''
         return s
 
@@ -142,14 +160,25 @@ def run_case(chk, ob, ip, prog, case, props, extra_judge=None):
             last = msgs[-1]
             sent = sent[:len(sent) - len(last) + min(case.cut, len(last) - 1)]
             complete = msgs[:-1]
-        bks = [HE.Backend(ip_, prog, i, r, sym_status=case.sym_status) for i, r in enumerate(case.roles)]
+        if case.shards:
+            bks, i = [], 0
+            for si, rs in enumerate(case.shards):
+                row = []
+                for pos, r in enumerate(rs):
+                    row.append(HE.Backend(ip_, prog, i, r, sym_status=case.sym_status, shard=si, pos=pos))
+                    i += 1
+                bks.append(row)
+            flat = [b for row in bks for b in row]
+        else:
+            bks = [HE.Backend(ip_, prog, i, r, sym_status=case.sym_status) for i, r in enumerate(case.roles)]
+            flat = bks
         client_over = {}
         pool_over = {}
         if case.mode == 'session':
             client_over['transaction_mode'] = BV(1, 0)
         if case.cache:
             client_over['prepared_statements_enabled'] = BV(1, 1)
-            for b in bks:
+            for b in flat:
                 setf(prog, b.server, 'Server', 'prepared_statement_cache', some(ip_, lru([], case.cache)))
             pool_over['prepared_statement_cache'] = some(ip_, Ptr(Cell(Agg([mk_struct(prog, 'PreparedStatementCache', cache=lru([], case.cache))], 'Lock'), 'pscache')))
         pend, on_pending = (), None
@@ -203,7 +232,11 @@ def run_case(chk, ob, ip, prog, case, props, extra_judge=None):
 
             def denied(m):
                 return any(HE.same_bytes(dec, m, dm) for dm in denied_msgs)
-        V = HE.judge(data, eff, dec, cache_on=bool(case.cache), expect_incomplete=inc, denied=denied, allow_pooler_replies=case.plugins)
+        customV = []
+        if case.custom:
+            eff, customV = custom_reference(data, complete, dec, case.shards or [case.roles])
+        V = HE.judge(data, eff, dec, cache_on=bool(case.cache), expect_incomplete=inc, denied=denied, allow_pooler_replies=bool(case.plugins or case.custom))
+        V += customV
         if extra_judge:
             V += extra_judge(env, data, complete, dec)
         if case.paused is not None and not inc:
@@ -217,6 +250,11 @@ def run_case(chk, ob, ip, prog, case, props, extra_judge=None):
             hexs = bytes(model_byte(m, b) for b in sent).hex()
             cmd = {'op': 'handle_script', 'client_hex': hexs, 'eof': True, 'mode': case.mode, 'cache': case.cache,
                    'roles': ['primary' if r == 0 else 'replica' for r in case.roles]}
+            if case.shards:
+                cmd['shards'] = [['primary' if r == 0 else 'replica' for r in rs] for rs in case.shards]
+                cmd.pop('roles', None)
+            if case.custom:
+                cmd['custom'] = True
             if case.sym_status:
                 cmd['statuses'] = [model_byte(m, r['status_after']) for r in data['reqs'] if r['bytes'][0].concrete and r['bytes'][0].v == ord('Q')
                                    and r.get('status_after') is not None]
@@ -252,10 +290,175 @@ def run_case(chk, ob, ip, prog, case, props, extra_judge=None):
                        {'script': case.label(), 'client_bytes_hex': hexs, 'outcome': list(data['outcome'])},
                        {'commands': [cmd], 'expect': ['h_violation', prop, key, bool(case.cache), inc, hexs, n_before,
                                                       [bytes(model_byte(m, b) for b in dm).hex() for dm in (denied_msgs if case.plugins else [])],
-                                                      [bytes(model_byte(m, b) for mm in eff for b in mm).hex()] if case.plugins else None]})
+                                                      [bytes(model_byte(m, b) for mm in eff for b in mm).hex()] if case.plugins else None,
+                                                      [list(rs) for rs in (case.shards or [case.roles])] if case.custom else None]})
         if len(ob.samples) < 2:
             ob.samples.append({'script': case.label(), 'outcome': str(data['outcome']), 'events': [str(e) for e in env.events][:8]})
     ip.explore(harness, max_paths=4000)
+
+
+# ----------------------------------------------------------------------------------------------- pooler commands
+CMD_RX = [
+    ('SetShardingKey', re.compile(rb"^\s*SET\s+SHARDING\s+KEY\s+TO\s+'?(-?[0-9]+)'?\s*;?\s*$", re.I)),
+    ('SetShard', re.compile(rb"^\s*SET\s+SHARD\s+TO\s+'?([0-9]+|ANY)'?\s*;?\s*$", re.I)),
+    ('ShowShard', re.compile(rb"^\s*SHOW\s+SHARD\s*;?\s*$", re.I)),
+    ('SetServerRole', re.compile(rb"^\s*SET\s+SERVER\s+ROLE\s+TO\s+'?(PRIMARY|REPLICA|ANY|AUTO|DEFAULT)'?\s*;?\s*$", re.I)),
+    ('ShowServerRole', re.compile(rb"^\s*SHOW\s+SERVER\s+ROLE\s*;?\s*$", re.I)),
+    ('SetPrimaryReads', re.compile(rb"^\s*SET\s+PRIMARY\s+READS\s+TO\s+'?(on|off|default)'?\s*;?\s*$", re.I)),
+    ('ShowPrimaryReads', re.compile(rb"^\s*SHOW\s+PRIMARY\s+READS\s*;?\s*$", re.I)),
+]
+CMD_TAG = {'SetShardingKey': b'SET SHARDING KEY', 'SetShard': b'SET SHARD', 'SetServerRole': b'SET SERVER ROLE', 'SetPrimaryReads': b'SET PRIMARY READS'}
+
+
+def custom_reference(data, script, dec, shard_roles):
+    """Reference for the documented pooler commands in a session (transaction pool mode): outside a transaction a simple query
+    that IS one of the commands is answered by the pooler (CommandComplete <tag> + ReadyForQuery('I'); SHOW: RowDescription,
+    DataRow with the value the preceding SETs established, CommandComplete, ReadyForQuery) and never forwarded; SET SHARD n
+    selects shard n if n < shards (else it is refused with an error and the selection stays), SET SHARDING KEY k selects
+    PostgreSQL's hash partition of k; every later statement runs on a server of the selected shard (and of the selected
+    role).  Inside a transaction the commands are ordinary SQL for the server.  Symbolic digits are first split by the solver."""
+    from harness import refs
+    V = []
+    nsh = len(shard_roles)
+    binfo = {}
+    i = 0
+    for si, rs in enumerate(shard_roles):
+        for r in rs:
+            binfo[i] = (si, r)
+            i += 1
+    eff = []
+    cmds = []               # (script index, kind, value, expected shard after, expected role after)
+    sel_shard, sel_role = None, None
+    in_tx = False
+    for k, m in enumerate(script):
+        c = HE.code_of(m)
+        if c != 'Q':
+            eff.append(m)
+            continue
+        body = m[5:-1]
+        # concretise the symbolic digits class by class
+        vals = []
+        for b in body:
+            if b.concrete:
+                vals.append(b.v)
+            else:
+                got = None
+                for d in range(48, 58):
+                    if dec(b.z() == d):
+                        got = d
+                        break
+                if got is None:
+                    raise Inconclusive('symbolic command byte outside the digit class')
+                vals.append(got)
+        text = bytes(vals)
+        kind = None
+        for name, rx in CMD_RX:
+            mm = rx.match(text)
+            if mm:
+                kind = name
+                arg = mm.group(1) if mm.groups() else None
+                break
+        if kind is None or in_tx:
+            eff.append(m)
+            u = text.strip().upper()
+            if u in (b'BEGIN', b'START TRANSACTION'):
+                in_tx = True
+            elif u in (b'COMMIT', b'ROLLBACK', b'END', b'ABORT'):
+                in_tx = False
+            cmds.append((k, 'stmt', m, sel_shard, sel_role))
+            continue
+        refused = False
+        if kind == 'SetShard':
+            if arg.upper() == b'ANY':
+                sel_shard = 'any'
+            elif int(arg) < nsh:
+                sel_shard = int(arg)
+            else:
+                refused = True
+        elif kind == 'SetShardingKey':
+            kv = int(arg)
+            if -(1 << 63) <= kv < (1 << 63):
+                sel_shard = refs.pg_partition_of(kv, nsh)
+            else:
+                refused = True
+        elif kind == 'SetServerRole':
+            a = arg.upper()
+            sel_role = {b'PRIMARY': 0, b'REPLICA': 1}.get(a, None)
+        cmds.append((k, kind, (arg, refused), sel_shard, sel_role))
+    # (a) never forwarded: a backend message that is not the client's next forwardable message (origin decided by `judge` against
+    # the script without the commands) and equals one of the commands
+    cmd_msgs = [script[k] for k, kind, *_ in cmds if kind != 'stmt']
+    HE.judge(data, eff, dec, allow_pooler_replies=True)
+    for r in data['reqs']:
+        if r.get('origin') == 'unknown' and any(HE.same_bytes(dec, r['bytes'], cm) for cm in cmd_msgs):
+            V.append(('C13', 'H/command-forwarded', 'backend %d received the pooler command %s' % (r['backend'], HE.show(r['bytes'][:50]))))
+    # (b) replies: the client's stream, message by message, with the backend replies removed
+    out_msgs, _ = HE.split_messages(data['client_out'], 'bytes written to the client')
+    delivered = [d for r in data['reqs'] for d in r['delivered']]
+    pooler = []
+    di = 0
+    for m in out_msgs:
+        if di < len(delivered) and HE.same_bytes(dec, m, delivered[di]):
+            di += 1
+        else:
+            pooler.append(m)
+    pi = 0
+
+    def take():
+        nonlocal pi
+        if pi < len(pooler):
+            pi += 1
+            return pooler[pi - 1]
+        return None
+
+    def is_code(m, ch):
+        return m is not None and m[0].concrete and m[0].v == ord(ch)
+
+    def eq(m, raw):
+        return m is not None and HE.same_bytes(dec, m, [BV(8, b) for b in raw])
+    shown_shard = None
+    for k, kind, info, sh, ro in cmds:
+        if kind == 'stmt':
+            continue
+        arg, refused = info
+        if kind in CMD_TAG:
+            first = take()
+            if refused:
+                ok_ = is_code(first, 'E')
+                z = take()
+            else:
+                ok_ = eq(first, msg('C', CMD_TAG[kind] + b'\0'))
+                z = take()
+            if not ok_ or not eq(z, msg('Z', b'I')):
+                V.append(('C13', 'H/command-reply', 'the pooler command %s is not answered with %s + ReadyForQuery (got %s, %s)' %
+                          (HE.show(script[k][5:-1]), 'an ErrorResponse' if refused else 'CommandComplete "%s"' % CMD_TAG[kind].decode(),
+                           HE.show(first[:30]) if first else None, HE.show(z) if z else None)))
+            if kind == 'SetShard' and refused and not ok_:
+                V.append(('C06', 'H/out-of-range-shard-accepted', 'SET SHARD TO %s with %d shards is not refused' % (arg.decode(), nsh)))
+        else:
+            t, d, c, z = take(), take(), take(), take()
+            want = None
+            if kind == 'ShowShard':
+                want = b'any' if sh in (None, 'any') else str(sh).encode()
+            if not (is_code(t, 'T') and is_code(d, 'D') and is_code(c, 'C') and eq(z, msg('Z', b'I'))):
+                V.append(('C13', 'H/command-reply', 'SHOW is not answered with RowDescription, DataRow, CommandComplete, ReadyForQuery (got %s)' %
+                          [HE.show(x[:12]) if x else None for x in (t, d, c, z)]))
+            elif want is not None and sh != 'any' and sh is not None:
+                val = d[11:]
+                if not HE.same_bytes(dec, val, [BV(8, b) for b in want]):
+                    V.append(('C13', 'H/show-value', 'SHOW SHARD reports %s after the preceding commands selected shard %r' % (HE.show(val), sh)))
+    # (c) routing of the statements that follow
+    by_msg = {}
+    stmts = [(k, m, sh, ro) for k, kind, m, sh, ro in cmds if kind == 'stmt']
+    creqs = [r for r in data['reqs'] if r.get('origin') == 'client' and HE.code_of(r['bytes']) == 'Q']
+    for (k, m, sh, ro), r in zip(stmts, creqs):
+        bshard, brole = binfo[r['backend']]
+        if isinstance(sh, int) and bshard != sh:
+            V.append(('C06', 'H/wrong-shard', 'statement %s ran on a server of shard %d although the session selected shard %d' % (HE.show(m[5:40]), bshard, sh)))
+        if ro is not None and brole != ro:
+            V.append(('C13', 'H/wrong-role', 'statement %s ran on a %s although SET SERVER ROLE selected %s' %
+                      (HE.show(m[5:40]), 'primary' if brole == 0 else 'replica', 'primary' if ro == 0 else 'replica')))
+    return eff, V
 
 
 INTERCEPT_REPLY = msg('C', b'INTERCEPTED\0') + msg('Z', b'I')
@@ -339,7 +542,7 @@ def model_byte(m, b):
 
 
 @expectation('h_violation')
-def h_violation(prop, key, cache_on, incomplete, hexs, n_before=None, denied_hex=(), eff_hex=None):
+def h_violation(prop, key, cache_on, incomplete, hexs, n_before=None, denied_hex=(), eff_hex=None, custom_shards=None):
     """Native confirmation: the same reference model, evaluated on what the Rust reference backends and the two client
     sockets observed when the concrete script was played against the compiled pgcat."""
     def f(res):
@@ -350,8 +553,12 @@ def h_violation(prop, key, cache_on, incomplete, hexs, n_before=None, denied_hex
         complete, _rest = HE.split_messages(HE.bvs(eff_hex[0] if eff_hex else hexs), 'client script')
         dmsgs = [HE.bvs(h) for h in (denied_hex or ())]
         dec = HE.Decider(None)
+        customV = []
+        if custom_shards:
+            complete, customV = custom_reference(data, complete, dec, custom_shards)
         V = HE.judge(data, complete, dec, cache_on=cache_on, expect_incomplete=incomplete,
-                     denied=(lambda mm: any(HE.same_bytes(dec, mm, dm) for dm in dmsgs)) if dmsgs else None, allow_pooler_replies=bool(eff_hex))
+                     denied=(lambda mm: any(HE.same_bytes(dec, mm, dm) for dm in dmsgs)) if dmsgs else None,
+                     allow_pooler_replies=bool(eff_hex or custom_shards)) + customV
         hit = [v for v in V if v[0] == prop and v[1] == key]
         if prop == 'C16' and key == 'H/checkout-while-paused':
             # natively the pause gate is observed as: a request sent after PAUSE reaches a backend while the pool is still paused
